@@ -8,7 +8,12 @@ RULE = ("same shapes and embedding scenarios as C01; for each shape the document
         "string incl. the wrap-around multiples of 2^64, quoted numbers, escapes and lone surrogates, case variants and unicode look-alikes of keys, "
         "duplicate and unknown members, surplus array elements) and null; plus every viable prefix of the JSON language from spec/JsonGrammar.tla "
         "(valid, near-valid, completed) decoded into 21 target types; plus histories of two or three decodes into the same variable. "
-        "Unmarshal, Parse(0) and Decoder x {UseNumber, DisallowUnknownFields} are compared with encoding/json: error presence, deep equality")
+        "Unmarshal, Parse(0) and Decoder x {UseNumber, DisallowUnknownFields} are compared with encoding/json: error presence, deep equality; "
+        "plus spec/JsonString.tla read backwards: sequences of literal units (raw bytes incl. invalid UTF-8, the simple escapes, \\uXXXX by "
+        "class of code point incl. high and low surrogates, and four kinds of broken escapes) with the meaning the definition gives (pairs "
+        "combined, lone surrogates and invalid bytes replaced by U+FFFD) or the rejection, padded to every offset of an 8-byte word, read as a "
+        "value, element, field value, map key, through Unmarshal, Parse with the copy flags, Decoder, Unescape / AppendUnescape, "
+        "RawValue.Unquote and Tokenizer.String")
 ASSUME = ["encoding/json is the oracle of record; after a failed decode both variables are reset (partial content is outside the guarantee)",
           "time.Time values are compared as instants with equal zone offsets"]
 
@@ -20,6 +25,17 @@ def extra(ck, vec):
                                     defines={"MaxLen": 6 if ck.tier == "thorough" else 5, "MaxWS": 1}, tag="JsonGrammar-c02", timeout=3000),
                            "grammar documents")
     ck.add_mc(g, "Gen_JsonGrammar(for C02)")
+    # string literals read back: the unescape algorithm against its definition, then literal-unit sequences with their meaning
+    mc = vlib.must_hold(vlib.tlc("JsonString", "MC_JsonStringUnesc.cfg", workers=8), "JsonString: unescape algorithm refines the definition")
+    ck.add_mc(mc, "MC_JsonStringUnesc")
+    with open(vec, "a") as sink:
+        g2 = vlib.must_hold(vlib.tlc("JsonString", "Gen_JsonStringUnesc.cfg", workers=8, sink=sink, tag="JsonString-unesc2"), "string literals (all units, 2)")
+        sub = '{"a","r3","x","tr","e_c","e_bs","u_asc","u_hi","u_lo","u_r3","u_sc","ctlraw"}' if ck.tier != "thorough" else "{}"
+        g3 = vlib.must_hold(vlib.tlc("JsonString", "Gen_JsonStringUnesc.cfg", workers=8, sink=sink, tag="JsonString-unesc3",
+                                     defines={"MaxUnits": 3, "UnescUnits": sub}, timeout=3000), "string literals (3 units)")
+    ck.add_mc(g2, "Gen_JsonStringUnesc(2 units, all 37 literal units)")
+    ck.add_mc(g3, "Gen_JsonStringUnesc(3 units)")
+    ck.notes["literal_unit_sequences"] = g2.vectors + g3.vectors
 
 
 def run(tier, seed):
